@@ -6,6 +6,7 @@ CONSTANTS
   Mode = "geometry"
   GeomRefs = {"allC", "allG", "CG", "GC"}
   MaxFrags = 1
+  DistMode = "mixed"
   Variant = "design"
 INVARIANT Inv_C14_OnTarget
 INVARIANT Inv_C14_DoveSafe
